@@ -4,8 +4,6 @@ import SJ.Props.TypedFaultEq
 import SJ.Props.StreamTyped
 #print axioms SJ.Props.C13.c13_read
 #print axioms SJ.Props.C13.c13_read_error_class
-#print axioms SJ.Props.C13.c13_write_prefix
-#print axioms SJ.Props.C13.c13_write_is_prefix
 #print axioms SJ.Props.Typed.c13_typed_fault
 #print axioms SJ.Props.C13.c13_buffers_utf8
 #print axioms SJ.Props.TypedFaultEq.c13_typed_fault_eq
@@ -20,3 +18,4 @@ import SJ.Props.StreamTyped
 #print axioms SJ.Props.C13.c13_trace_agrees
 #print axioms SJ.Props.C13.c13_writer_all
 #print axioms SJ.Props.C13.c13_writer_all_vec
+#print axioms SJ.Props.C13.c13_every_write_checked
